@@ -565,11 +565,12 @@ Qed.
 
 (* any observation trace accepted by the executable property has the FIFO property *)
 Theorem prop_implies_fifo i o cap ops outs :
+  conc_mode i = false ->
   decode_input i = Some (cap, ops) -> decode_outs o = Some outs -> prop_C21 i o = true ->
   is_prefix_of (concat (reads outs)) (concat (accepted_writes ops outs)) /\
   (~ In ORelease ops -> exists rest, concat (accepted_writes ops outs) = concat (reads outs) ++ rest).
 Proof.
-  intros Hi Ho Hp. unfold prop_C21 in Hp. rewrite Hi, Ho in Hp. unfold spec_ok in Hp.
+  intros Hc Hi Ho Hp. unfold prop_C21 in Hp. rewrite Hi, Ho, Hc in Hp. unfold spec_ok in Hp.
   destruct (spec_run (spec_init cap) ops outs) as [s'|] eqn:Hs; [|discriminate].
   split.
   - exact (spec_run_prefix ops outs (spec_init cap) s' Hs (srel_init cap)).
@@ -596,7 +597,11 @@ Theorem prop_of_model i : wf_C21 i = true -> kf_C21 i = 0 -> prop_C21 i (run_C21
 Proof.
   intros Hwf _. unfold wf_C21 in Hwf. unfold prop_C21, run_C21.
   destruct (decode_input i) as [[cap ops]|] eqn:Hi; [|discriminate].
-  rewrite decode_encode_outs. apply model_refines_spec.
+  destruct (conc_mode i).
+  - change (VL [encode_obs (transfer_result ops)]) with (VL (map encode_obs [transfer_result ops])).
+    rewrite decode_encode_outs. unfold transfer_result.
+    rewrite Nat.eqb_refl, lz_eqb_refl. reflexivity.
+  - rewrite decode_encode_outs. apply model_refines_spec.
 Qed.
 
 (* ---------- single-step statements over reachable states ---------- *)
@@ -761,3 +766,132 @@ Lemma ex_prop_rejects :
   prop_C21 i (VL [VL [VZ 1; VZ 3; VZ 0]; VL []; VL [VZ 2; VZ 2; VB [1;2]; VZ 0; VZ 0]; VL [VZ 2; VZ 0; VB []; VZ 2; VZ 0]]) = false /\
   prop_C21 i (VL [VL [VZ 1; VZ 2; VZ 0]; VL []; VL [VZ 2; VZ 2; VB [1;2]; VZ 0; VZ 0]; VL [VZ 2; VZ 0; VB []; VZ 2; VZ 0]]) = false.
 Proof. vm_compute. repeat split; reflexivity. Qed.
+
+(* ---------- concurrent transfer: every schedule delivers exactly the written data ---------- *)
+Lemma run_from_app a : forall p b,
+  fst (run_from p (a ++ b)) = fst (run_from (fst (run_from p a)) b).
+Proof.
+  induction a as [|o a IH]; intros p b; simpl; [reflexivity|].
+  destruct (step p o) as [p1 x]. specialize (IH p1 b).
+  destruct (run_from p1 (a ++ b)) as [p2 y]. destruct (run_from p1 a) as [p3 z]. simpl in *. exact IH.
+Qed.
+
+Lemma reachable_step cap p o : reachable cap p -> reachable cap (fst (step p o)).
+Proof.
+  intros [ops H]. exists (ops ++ [o]). unfold run_pipe in *. rewrite run_from_app, H. simpl.
+  destruct (step p o) as [p1 x]. reflexivity.
+Qed.
+
+Lemma write_preserves p d :
+  let p' := fst (step p (OWrite d)) in
+  p_err p' = p_err p /\ p_brk p' = p_brk p /\ (p_b p <> None -> p_b p' <> None).
+Proof.
+  simpl. unfold pipe_write. destruct (negb (p_err p =? 0)); [simpl; auto|].
+  destruct (p_b p) as [fb|]; [|simpl; auto].
+  destruct (fb_write fb d) as [[fb' n] e]. simpl. repeat split; auto. discriminate.
+Qed.
+
+Lemma read_preserves p k :
+  let p' := fst (step p (ORead k)) in
+  p_err p' = p_err p /\ p_brk p' = p_brk p /\ (p_b p <> None -> p_b p' <> None).
+Proof.
+  simpl. unfold pipe_read. destruct (negb (p_brk p =? 0)); [simpl; auto|].
+  destruct (p_b p) as [fb|] eqn:Eb.
+  - destruct (Nat.ltb 0 (fb_len fb)).
+    + destruct (fb_read fb k) as [[fb' data] e]. simpl. repeat split; auto. discriminate.
+    + destruct (negb (p_err p =? 0)); simpl; rewrite ?Eb; repeat split; auto; discriminate.
+  - destruct (negb (p_err p =? 0)); simpl; rewrite ?Eb; repeat split; auto.
+Qed.
+
+Lemma close_eof_effect p :
+  p_err p = 0 \/ p_err p = E_EOF ->
+  let p' := fst (step p (OClose E_EOF)) in
+  p_err p' = E_EOF /\ p_brk p' = p_brk p /\ p_b p' = p_b p.
+Proof.
+  intros [H|H]; simpl; unfold close_with; simpl; rewrite H; simpl; auto.
+Qed.
+
+Definition t_inv (cap : nat) (W : list (list Z)) (t : tstate) : Prop :=
+  reachable cap (t_p t) /\ p_brk (t_p t) = 0 /\ p_b (t_p t) <> None /\
+  concat W = t_got t ++ pending (t_p t) ++ concat (t_wq t) /\
+  (p_err (t_p t) = 0 \/ (p_err (t_p t) = E_EOF /\ t_wq t = [])) /\
+  (t_rerr t = 0 \/ (t_rerr t = E_EOF /\ pending (t_p t) = [] /\ t_wq t = [])).
+
+Lemma t_inv_init cap W : t_inv cap W (t_init cap W).
+Proof.
+  unfold t_inv, t_init; simpl. repeat split; auto.
+  - exists []. reflexivity.
+  - discriminate.
+Qed.
+
+Lemma t_inv_step cap W t c : t_inv cap W t -> t_inv cap W (t_step t c).
+Proof.
+  intros (Hre & Hbk & Hb & Hacc & Herr & Hrd). destruct c as [|k]; unfold t_step.
+  - (* writer *)
+    destruct (t_wq t) as [|d rest] eqn:Ewq.
+    + (* close *)
+      assert (Hcl : p_err (t_p t) = 0 \/ p_err (t_p t) = E_EOF) by (destruct Herr as [H|[H _]]; auto).
+      pose proof (close_eof_effect (t_p t) Hcl) as (H1 & H2 & H3).
+      pose proof (reachable_step cap (t_p t) (OClose E_EOF) Hre) as Hre'.
+      destruct (step (t_p t) (OClose E_EOF)) as [p' x]. simpl in *.
+      assert (Hp : pending p' = pending (t_p t)) by (unfold pending; rewrite H3; reflexivity).
+      unfold t_inv; simpl. rewrite Hp, H2, H3. repeat split; auto.
+    + (* write *)
+      assert (He0 : p_err (t_p t) = 0) by (destruct Herr as [H|[_ H]]; [exact H|discriminate]).
+      destruct (write_all_or_error cap (t_p t) d Hre) as (p' & n & e & Hs & Hn & _ & _ & Hpend & _).
+      pose proof (write_preserves (t_p t) d) as (H1 & H2 & H3).
+      pose proof (reachable_step cap (t_p t) (OWrite d) Hre) as Hre'.
+      rewrite Hs in *. simpl in H1, H2, H3, Hre'.
+      unfold t_inv; simpl. rewrite H1, H2, Hpend.
+      assert (Hcat : firstn n d ++ concat (if Nat.leb (length d) n then rest else skipn n d :: rest) = d ++ concat rest).
+      { destruct (Nat.leb (length d) n) eqn:El.
+        - apply Nat.leb_le in El. rewrite firstn_all2 by lia. reflexivity.
+        - simpl. rewrite app_assoc, firstn_skipn. reflexivity. }
+      repeat split; auto.
+      * rewrite <- !app_assoc, Hcat. simpl in Hacc. exact Hacc.
+      * destruct Hrd as [H|(_ & _ & H)]; [left; exact H|discriminate].
+  - (* reader *)
+    destruct (t_rerr t =? 0) eqn:Er; cbn [negb]; cbv iota.
+    2:{ unfold t_inv. repeat split; auto. }
+    apply Z.eqb_eq in Er.
+    destruct (read_cases cap (t_p t) k Hre Hbk) as (R1 & R2 & R3).
+    pose proof (read_preserves (t_p t) k) as (H1 & H2 & H3).
+    pose proof (reachable_step cap (t_p t) (ORead k) Hre) as Hre'.
+    destruct (pending (t_p t)) as [|x l] eqn:Ep.
+    + destruct (Z.eq_dec (p_err (t_p t)) 0) as [He|He].
+      * rewrite (R3 eq_refl He). unfold t_inv; simpl. rewrite Ep. repeat split; auto.
+      * destruct (R2 eq_refl He) as (p' & c & Hs & Hp' & He').
+        rewrite Hs in *. simpl in H1, H2, H3, Hre'.
+        assert (Heof : p_err (t_p t) = E_EOF /\ t_wq t = []) by (destruct Herr as [H|H]; [contradiction|exact H]).
+        destruct Heof as [Heof Hwq].
+        unfold t_inv; simpl. rewrite Hp', H2, H1, app_nil_r. repeat split; auto.
+    + destruct R1 as (p' & Hs & Hp' & He' & Hb'); [discriminate|].
+      rewrite Hs in *. simpl in H1, H2, H3, Hre'.
+      unfold t_inv; simpl. rewrite Hp', H2, H1. repeat split; auto.
+      rewrite Hacc, <- !app_assoc. f_equal. rewrite app_assoc, firstn_skipn. reflexivity.
+Qed.
+
+Lemma t_inv_run cap W sch : t_inv cap W (t_run cap W sch).
+Proof.
+  unfold t_run. generalize (t_inv_init cap W). generalize (t_init cap W).
+  induction sch as [|c sch IH]; intros t Ht; simpl; [exact Ht|].
+  apply IH. apply t_inv_step. exact Ht.
+Qed.
+
+Theorem transfer_any_schedule cap W sch :
+  let t := t_run cap W sch in
+  is_prefix_of (t_got t) (concat W) /\
+  (t_rerr t <> 0 -> t_got t = concat W /\ t_rerr t = E_EOF).
+Proof.
+  pose proof (t_inv_run cap W sch) as (_ & _ & _ & Hacc & _ & Hrd). cbv zeta. split.
+  - eexists. exact Hacc.
+  - intros Hne. destruct Hrd as [H|(H1 & H2 & H3)]; [contradiction|].
+    rewrite H2, H3 in Hacc. simpl in Hacc. rewrite app_nil_r in Hacc. auto.
+Qed.
+
+(* non-vacuity: a round-robin schedule over a 2-byte pipe completes the transfer of 5 bytes *)
+Lemma ex_transfer :
+  let t := t_run 2 [[1;2;3]; []; [4;5]]
+             [SWriter; SReader 1; SWriter; SReader 3; SReader 3; SWriter; SWriter; SReader 2; SWriter; SWriter; SReader 2; SReader 2] in
+  t_got t = [1;2;3;4;5] /\ t_rerr t = E_EOF.
+Proof. vm_compute. split; reflexivity. Qed.
